@@ -522,9 +522,16 @@ def checkProds (outs : List OutW) (exps : Nat → List Item) : Nat → Nat → V
     | .pass => checkProds outs exps (gid + 1) n
     | v => v
 
+/-- A tracer line written with a repetition count: a second submission was merged away together with
+    the entries it collected. -/
+def OutW.mergedTracer (o : OutW) : Bool := o.entries.isSome && o.dups > 0
+
 def checkRun (np : Nat) (exps : Nat → List Item) (outs : List OutW) : Verdict :=
   match outs.find? (fun o => o.gid ≥ np) with
   | some o => .fail "unexpected" o.gid o.item
-  | none => checkProds outs exps 0 np
+  | none =>
+    match outs.find? OutW.mergedTracer with
+    | some o => .fail "trace" o.gid o.item
+    | none => checkProds outs exps 0 np
 
 end PB.Log
